@@ -5,7 +5,7 @@ F = "paseto-core/src/pae.rs"
 
 def unit():
     fn = [f"{F}::pre_auth_encode", "paseto-core/src/encodings.rs::<&mut W as WriteBytes>::write"]
-    hs = [Harness(f"pae_n{n}", ["C15", "C02"], tier="quick" if n <= 3 else "thorough", functions=fn, timeout=3600 if n <= 5 else 7200,
+    hs = [Harness(f"pae_n{n}", ["C15", "C02"], tier="quick" if n <= 3 else ("thorough" if n <= 5 else "manual"), functions=fn, timeout=3600 if n <= 5 else 7200,
                   desc=f"N={n} pieces, every fragmentation into 0..=4 fragments, ALL fragment lengths (unbounded symbolic): writer receives exactly le64(N) || per piece le64(total) || fragments by identity")
           for n in range(0, 9)]
     hs += [Harness(f"pae_focus_n{n}", ["C15", "C02"], functions=fn, timeout=3000, complete=False, tier="quick" if n <= 5 else "thorough",
